@@ -90,7 +90,7 @@ def run_case(ctx, rep, spec, variables, limit, model, path=None, P=None, start=N
 
 
 def run(ctx, rep, model=True):
-    n = 10 if ctx.quick else 80
+    n = 20 if ctx.quick else 120
     for i in range(n):
         spec = plotgen.random_spec(ctx.rng, ndims=[3, 2][i % 2], nf=[3, 4, 2, 5, 1][i % 5], data=["bits", "tags"][i % 3 == 2],
                                    B=2, layout=["scatter", "perm", "files", "scatter"][i % 4], repeats=(i % 7 == 6))
